@@ -95,6 +95,35 @@ ResidualZero(D, xs, L, b) == /\ L > 0 /\ Len(xs) = D.c /\ Len(b) = D.r
 Lim == 16777216
 Checkable(xs, L) == L >= 1 /\ L <= Lim /\ \A k \in 1..Len(xs) : -Lim <= xs[k] /\ xs[k] <= Lim
 
+(* ------------- Part 2b: the same oracles over Gaussian integers / Gaussian rationals ------------- *)
+\* a complex matrix is a pair of Dense matrices (real parts, imaginary parts); a complex number a pair <<re, im>>
+CMulP(a, b) == <<a[1] * b[1] - a[2] * b[2], a[1] * b[2] + a[2] * b[1]>>
+CSubP(a, b) == <<a[1] - b[1], a[2] - b[2]>>
+CNegP(a) == <<-a[1], -a[2]>>
+\* exact quotient of Gaussian integers (the divisions are exact wherever the fraction-free elimination uses them)
+CQuotP(a, b) == LET nn == b[1] * b[1] + b[2] * b[2]
+                IN <<QuotExact(a[1] * b[1] + a[2] * b[2], nn), QuotExact(a[2] * b[1] - a[1] * b[2], nn)>>
+CZeroP == <<0, 0>>
+CRowFn(D, Di) == [i \in 0..(D.r - 1) |-> TLCEval([j \in 0..(D.c - 1) |-> <<At(D, i, j), At(Di, i, j)>>])]
+RECURSIVE CBareissFrom(_, _, _, _, _)
+CBareissFrom(M, n, k, prev, sgn) ==
+    IF k >= n - 1 THEN (IF sgn = 1 THEN M[n - 1][n - 1] ELSE CNegP(M[n - 1][n - 1]))
+    ELSE LET cand == {r \in k..(n - 1) : M[r][k] # CZeroP} IN
+         IF cand = {} THEN CZeroP
+         ELSE LET p == CHOOSE r \in cand : \A s \in cand : r <= s
+                  S == [M EXCEPT ![k] = M[p], ![p] = M[k]]
+                  M2 == TLCEval([i \in 0..(n - 1) |-> IF i <= k THEN S[i]
+                                   ELSE TLCEval([j \in 0..(n - 1) |-> IF j <= k THEN CZeroP
+                                            ELSE CQuotP(CSubP(CMulP(S[i][j], S[k][k]), CMulP(S[i][k], S[k][j])), prev)])])
+              IN CBareissFrom(M2, n, k + 1, S[k][k], IF p # k THEN -sgn ELSE sgn)
+\* determinant of D + i Di as a pair <<re, im>>
+CDetFF(D, Di) == IF D.r = 0 THEN <<1, 0>> ELSE CBareissFrom(TLCEval(CRowFn(D, Di)), D.r, 0, <<1, 0>>, 1)
+\* (xs + i xsi) / L solves (D + i Di) x = b + i bi   (integers only; L > 0)
+ResidualZeroCx(D, Di, xs, xsi, L, b, bi) ==
+    /\ L > 0 /\ Len(xs) = D.c /\ Len(xsi) = D.c /\ Len(b) = D.r /\ Len(bi) = D.r
+    /\ \A i \in 0..(D.r - 1) : /\ Dot(GetRow(D, i), xs) - Dot(GetRow(Di, i), xsi) = L * b[i + 1]
+                                /\ Dot(GetRow(D, i), xsi) + Dot(GetRow(Di, i), xs) = L * bi[i + 1]
+
 (* ------------- Part 3: the compact LU of banded.rs, step by step, over Rat ------------- *)
 \* state of the factorisation: au (n x mm), al (n x m1) as functions of 0-based indices, exchange
 \* indices idx (1-based like the code), sign d, loop counter k and window end l
